@@ -112,6 +112,10 @@ type World struct {
 	// linted) a text of the same length whose lines begin elsewhere - what an editor integration
 	// that re-lints a changing document out of one buffer does
 	MemPrior bool
+	// TwoClients: an embedding program with two lint calls in flight at once - two Linters, created
+	// one after the other, each then linting one half of Files on a task of its own (APIFiles only)
+	TwoClients bool
+	afterNew   func() // called right after NewLinter returned (not for shared Linters)
 	// LogFailAt > 0: the log writer (Command.Stderr / LinterOptions.LogWriter) fails like a full
 	// disk once LogFailAt-1 bytes have been written (not for shared Linters)
 	LogFailAt int
@@ -289,6 +293,36 @@ func RunLint(w *World, c *Chooser, o RunOpts) *LintResult {
 		if t, ok := w.Tools.(*Tools); ok && t != nil && o.ToolMoves == 2 {
 			t.gone = true
 		}
+		if w.TwoClients && w.API == APIFiles && shared == nil && len(w.Files) >= 2 {
+			wa, wb := *w, *w
+			h := len(w.Files) / 2
+			wa.Files, wb.Files = w.Files[:h], w.Files[h:]
+			resB := &LintResult{}
+			var done, created simsync.WaitGroup
+			done.Add(1)
+			created.Add(1)
+			// the second Linter is created while the first client waits (creating two Linters at the
+			// same time is no part of any property); from then on the two calls overlap
+			wb.afterNew = func() { created.Done() }
+			wa.afterNew = func() {
+				kern.Go("client2", func() {
+					defer done.Done()
+					lintOnce(&wb, resB, nil)
+				})
+				created.Wait()
+			}
+			lintOnce(&wa, res, nil)
+			done.Wait()
+			res.Errs = append(res.Errs, resB.Errs...)
+			res.Stdout += resB.Stdout
+			res.Stderr += resB.Stderr
+			if res.Fatal == "" && resB.Fatal != "" {
+				res.Fatal, res.Exit = resB.Fatal, resB.Exit
+			} else if res.Exit == 0 {
+				res.Exit = resB.Exit
+			}
+			rep = 0
+		}
 		for i := 0; i < rep; i++ {
 			lintOnce(w, res, shared)
 		}
@@ -457,6 +491,9 @@ func lintOnce(w *World, res *LintResult, shared *sharedLinter) {
 				opts.LogWriter = &failingLogWriter{b: &errb, room: w.LogFailAt - 1, failed: &res.LogWriteFailures}
 			}
 			l, err = actionlint.NewLinter(ow, opts)
+			if w.afterNew != nil {
+				w.afterNew()
+			}
 		}
 		res.Linter = l
 		var errs []*actionlint.Error
